@@ -327,7 +327,7 @@ func (vc *VC) oblige(st *State, o *Obligation, formula string) {
 	vc.counts[o.Kind]++
 	vc.obs = append(vc.obs, o)
 	// later obligations may assume this one held (covers do not: see query)
-	if !o.Cover {
+	if !o.Cover && formula != "false" { // (a structural failure is reported; assuming it would make the rest of the path vacuous)
 		if vc.obAsserts == nil {
 			vc.obAsserts = map[int]bool{}
 		}
